@@ -2646,3 +2646,114 @@ func init() {
 			return out
 		}})
 }
+
+// ---- RLKFIRST
+//
+// A multiplication with relinearisation needs one key, known before anything is computed. When the key is looked up
+// only after the tensoring has written the receiver, a missing key is reported with the documented error — and the
+// receiver (the operand itself for the in-place form, the accumulator for MulRelinThenAdd) has already been overwritten
+// with a partial product: the caller cannot retry, and a program that handles the error continues with a wrong value.
+//
+// Rule: in every function that calls CheckAndGetRelinearizationKey, the call precedes (source order) every ring
+// operation and every evaluator call that writes an element parameter of the function.
+
+func scanRlkFirst(c *core.Ctx) []ob {
+	var out []ob
+	n := 0
+	eff := effFor(c)
+	c.FuncDecls(func(pk *packages.Package, file *ast.File, fd *ast.FuncDecl) {
+		if fd.Body == nil || fileIsTestSupport(c.Program, fd.Pos()) || inExamples(pk) {
+			return
+		}
+		info := pk.TypesInfo
+		var check *ast.CallExpr
+		ast.Inspect(fd.Body, func(x ast.Node) bool {
+			if call, ok := x.(*ast.CallExpr); ok && calleeName(info, call) == "CheckAndGetRelinearizationKey" && check == nil {
+				check = call
+			}
+			return true
+		})
+		if check == nil || fd.Name.Name == "CheckAndGetRelinearizationKey" {
+			return
+		}
+		n++
+		fkey := core.FuncKey(pk, fd)
+		params := map[types.Object]bool{}
+		if fn, ok := info.Defs[fd.Name].(*types.Func); ok {
+			sig := fn.Type().(*types.Signature)
+			for i := 0; i < sig.Params().Len(); i++ {
+				if isMetaCarrier(sig.Params().At(i).Type()) {
+					params[sig.Params().At(i)] = true
+				}
+			}
+		}
+		rootIsParam := func(e ast.Expr) bool {
+			for {
+				switch y := unparen(e).(type) {
+				case *ast.Ident:
+					return params[info.Uses[y]]
+				case *ast.SelectorExpr:
+					e = y.X
+				case *ast.IndexExpr:
+					e = y.X
+				case *ast.CallExpr:
+					if s, ok := unparen(y.Fun).(*ast.SelectorExpr); ok && len(y.Args) == 0 && s.Sel.Name == "El" {
+						e = s.X
+						continue
+					}
+					return false
+				default:
+					return false
+				}
+			}
+		}
+		var early *ast.CallExpr
+		ast.Inspect(fd.Body, func(x ast.Node) bool {
+			call, ok := x.(*ast.CallExpr)
+			if !ok || early != nil || call.Pos() >= check.Pos() {
+				return early == nil
+			}
+			sel, isSel := unparen(call.Fun).(*ast.SelectorExpr)
+			// ring operation (writes its last polynomial argument)
+			if isSel && len(call.Args) >= 2 {
+				if rt := info.TypeOf(sel.X); rt != nil && isRingLikeRecv(rt) && !ringReadOnly[sel.Sel.Name] {
+					early = call
+					return false
+				}
+			}
+			for _, cf := range eff.callees(info, call) {
+				if sm := eff.sums[cf]; sm != nil {
+					for ai, a := range call.Args {
+						if sm.wParams[ai] && rootIsParam(a) {
+							early = call
+						}
+					}
+				}
+			}
+			return early == nil
+		})
+		key := "RLKFIRST:" + fkey
+		props := metaProps(fkey)
+		if early == nil {
+			out = append(out, withProps(okOb("RLKFIRST", key, c.Rel(check.Pos()), "the relinearisation key is looked up before anything is written", true), props...))
+		} else {
+			out = append(out, withProps(violOb("RLKFIRST", key, c.Rel(check.Pos()), fmt.Sprintf("%s looks the relinearisation key up at %s, after %s at %s has already written: with no key the documented error is returned but the receiver (the operand itself when the operation is done in place) is left overwritten with a partial product", fkey, c.Rel(check.Pos()), exprString(early.Fun), c.Rel(early.Pos()))), props...))
+		}
+	})
+	c.Stats["rlkfirst_fns"] = n
+	return out
+}
+
+func init() {
+	core.Register(&core.Rule{Name: "RLKFIRST", Props: []string{"C04", "C05", "C06", "C09"},
+		Doc: "in every function that calls CheckAndGetRelinearizationKey, the call precedes every ring operation and every call that writes an element parameter: a missing key is reported before the receiver is touched",
+		Run: func(c *core.Ctx) []ob {
+			out := scanRlkFirst(c)
+			for i := range out {
+				out[i].Props = append(append([]string{}, out[i].Props...), "C09")
+			}
+			out = append(out, control(c, "RLKFIRST", scanRlkFirst, "(fixRelinEvaluator).MulLate")...)
+			out = append(out, core.Floor("RLKFIRST", nil, "functions looking up the relinearisation key", c.Stats["rlkfirst_fns"], 5)...)
+			return out
+		}})
+}
